@@ -41,6 +41,7 @@ type Engine struct {
 	Sources  map[string]string // file -> sha256 (repo sources)
 	LoadTime time.Duration
 	Solver   string
+	GenFiles map[string]map[string][]byte // sub dir -> generated harness files (name -> source)
 
 	finfo  sync.Map // *ssa.Function -> *funcInfo
 	memoMu sync.RWMutex
@@ -97,16 +98,20 @@ var oncePkgs = []string{"unicode/utf8", "unicode", "strconv", "math", "math/bits
 // Load builds the SSA program of /repo with the harness overlay.
 func Load(repoDir string, overlayDirs map[string]string) (*Engine, error) {
 	t0 := time.Now()
-	// the grammar's own description, re-read from grammar.peg on every load (C20)
-	if gdir, ok := overlayDirs["grammar"]; ok {
-		gen := filepath.Join(gdir, "gen_pegspec.go")
-		os.Remove(gen)
+	// the grammar's own description, re-read from grammar.peg on every load (C20);
+	// kept in memory (overlay) and handed to the native replay build as well
+	genFiles := map[string]map[string][]byte{}
+	if _, ok := overlayDirs["grammar"]; ok {
+		var gen []byte
 		if src, err := os.ReadFile(filepath.Join(repoDir, "grammar", "grammar.peg")); err == nil {
 			if g, perr := peg.Parse(string(src)); perr == nil {
-				os.WriteFile(gen, []byte(g.GoSource()), 0o644)
+				gen = []byte(g.GoSource())
 			} else {
-				os.WriteFile(gen, []byte("package grammar\n\n// grammar.peg could not be read: "+strings.ReplaceAll(perr.Error(), "\n", " ")+"\nvar pegRules []*pegRule = nil\nvar pegReadError = "+fmt.Sprintf("%q", perr.Error())+"\n"), 0o644)
+				gen = []byte("package grammar\n\n// grammar.peg could not be read: " + strings.ReplaceAll(perr.Error(), "\n", " ") + "\nvar pegRules []*pegRule = nil\nvar pegReadError = " + fmt.Sprintf("%q", perr.Error()) + "\n")
 			}
+		}
+		if gen != nil {
+			genFiles["grammar"] = map[string][]byte{"gen_pegspec.go": gen}
 		}
 	}
 	overlay := map[string][]byte{}
@@ -124,6 +129,11 @@ func Load(repoDir string, overlayDirs map[string]string) (*Engine, error) {
 				return nil, err
 			}
 			overlay[filepath.Join(repoDir, sub, "zz_verif_"+e.Name())] = b
+		}
+	}
+	for sub, fs := range genFiles {
+		for name, b := range fs {
+			overlay[filepath.Join(repoDir, sub, "zz_verif_"+name)] = b
 		}
 	}
 	cfg := &packages.Config{
@@ -156,6 +166,7 @@ func Load(repoDir string, overlayDirs map[string]string) (*Engine, error) {
 		e.subject[s] = true
 	}
 	e.once = oncePkgs
+	e.GenFiles = genFiles
 	prepareReflect(prog)
 	// hash repo sources
 	for _, pat := range []string{"*.go", "grammar/*.go", "grammar/*.peg", "go.mod"} {
